@@ -195,4 +195,137 @@ theorem opRequest_wire (P : SProto Q) (s : Sys Q) (es : List SEv) (req : Bytes) 
     rw [opRead_wire]; exact hw
   · exact hw
 
+/-! ### connection set-up -/
+
+/-- the reconnect window of a transport: DoIP polls for 10 s, the others connect once -/
+def window (P : SProto Q) : Nat := if P.kind == .doip then doipWindow else 0
+
+theorem doipPoll_time (P : SProto Q) (wend : Nat) (fuel : Nat) (s : Sys Q) (es : List SEv) :
+    (doipPoll P wend fuel s es).2.1.now ≤ max s.now wend := by
+  induction fuel generalizing s es with
+  | zero => simp only [doipPoll]; omega
+  | succ n ih =>
+    unfold doipPoll
+    split
+    · simp only; omega
+    · split
+      · simp only
+        split
+        · simp only [accept]; omega
+        · have h1 := (await_time P (fun x => x.conn.closed || x.conn.streamEnded)
+            (min ((accept P s).now + Doip.raTimeoutMs) wend) (accept P s) es).2
+          generalize await P (fun x => x.conn.closed || x.conn.streamEnded) _ (accept P s) es = r1 at h1 ⊢
+          have hacc : (accept P s).now = s.now := rfl
+          split
+          · simp only; omega
+          · have h2 := (await_time P (fun _ => false) (min (r1.2.1.now + pollStep) wend)
+              { r1.2.1 with conn := s.conn } r1.2.2).2
+            generalize await P (fun _ => false) _ { r1.2.1 with conn := s.conn } r1.2.2 = r2 at h2 ⊢
+            have := ih r2.2.1 r2.2.2
+            simp only at h2
+            omega
+      · have h2 := (await_time P (fun _ => false) (min (s.now + pollStep) wend) (refuse s) es).2
+        generalize await P (fun _ => false) _ (refuse s) es = r2 at h2 ⊢
+        have := ih r2.2.1 r2.2.2
+        have : (refuse s).now = s.now := rfl
+        simp only at *
+        omega
+
+theorem doipPoll_wire (P : SProto Q) (wend : Nat) (fuel : Nat) (s : Sys Q) (es : List SEv) :
+    (doipPoll P wend fuel s es).2.1.wire = s.wire := by
+  induction fuel generalizing s es with
+  | zero => simp [doipPoll]
+  | succ n ih =>
+    unfold doipPoll
+    split
+    · rfl
+    · split
+      · simp only
+        split
+        · rfl
+        · split
+          · simp only [await_wire]; rfl
+          · rw [ih]; simp only [await_wire]; rfl
+      · rw [ih, await_wire]; rfl
+
+theorem reconnect_time (P : SProto Q) (s : Sys Q) (es : List SEv) : (reconnect P s es).2.1.now ≤ s.now + window P := by
+  unfold reconnect window
+  simp only
+  split
+  · have := doipPoll_time P ((closeConn s).now + doipWindow) (doipWindow / pollStep + 1) (closeConn s) es
+    have h : (closeConn s).now = s.now := rfl
+    rw [h] at this ⊢
+    omega
+  · split <;> simp [accept, refuse, closeConn]
+
+theorem reconnect_wire (P : SProto Q) (s : Sys Q) (es : List SEv) : (reconnect P s es).2.1.wire = s.wire := by
+  unfold reconnect
+  simp only
+  split
+  · rw [doipPoll_wire]; rfl
+  · split <;> rfl
+
+/-! ### the ResponsePending loop -/
+
+def PRes2.sys : PRes2 Q → Sys Q
+  | .done _ s _ | .silence s _ | .lost s _ => s
+
+/-- time budget of the pending loop from counters `np`, `nt` on -/
+def pendBudget (lim : Limits) (mnt np nt : Nat) : Nat :=
+  ((lim.maxPending - np) * (mnt + 2) + (mnt - nt) + 1) * lim.waiting
+
+theorem pendBudget_base (lim : Limits) (mnt np nt : Nat) : lim.waiting ≤ pendBudget lim mnt np nt := by
+  unfold pendBudget
+  exact Nat.le_mul_of_pos_left _ (by omega)
+
+theorem pendBudget_timeout (lim : Limits) (mnt np nt : Nat) (h : ¬ mnt ≤ nt + 1) :
+    pendBudget lim mnt np (nt + 1) + lim.waiting ≤ pendBudget lim mnt np nt := by
+  unfold pendBudget
+  generalize (lim.maxPending - np) * (mnt + 2) = X
+  have : X + (mnt - nt) + 1 = (X + (mnt - (nt + 1)) + 1) + 1 := by omega
+  rw [this, Nat.add_mul (X + (mnt - (nt + 1)) + 1) 1]
+  omega
+
+theorem pendBudget_pending (lim : Limits) (mnt np nt : Nat) (h : ¬ lim.maxPending ≤ np + 1) :
+    pendBudget lim mnt (np + 1) 0 + lim.waiting ≤ pendBudget lim mnt np nt := by
+  unfold pendBudget
+  obtain ⟨a, ha⟩ : ∃ a, lim.maxPending - np = a + 1 := ⟨lim.maxPending - np - 1, by omega⟩
+  have h1 : lim.maxPending - (np + 1) = a := by omega
+  rw [ha, h1, Nat.succ_mul a (mnt + 2)]
+  generalize a * (mnt + 2) = X
+  have e1 : (X + (mnt - 0) + 1) * lim.waiting + lim.waiting = (X + (mnt - 0) + 1 + 1) * lim.waiting := by
+    rw [Nat.add_mul (X + (mnt - 0) + 1) 1]; omega
+  rw [e1]
+  exact Nat.mul_le_mul_right _ (by omega)
+
+theorem rd_now {P : SProto Q} {s : Sys Q} {es : List SEv} {t : Nat} {r : PRes} {s1 : Sys Q} {es1 : List SEv}
+    (h : opRead P s es (some t) = (r, s1, es1)) : s1.now ≤ s.now + t ∧ s1.wire = s.wire ∧ r ≠ .blocked := by
+  have ht := opRead_time P s es t
+  have hw := opRead_wire P s es (some t)
+  rw [h] at ht hw
+  exact ⟨ht.2, hw, ht.1⟩
+
+theorem pendLoop_spec (P : SProto Q) (cls : Bytes → Ev) (lim : Limits) (mnt : Nat) (s : Sys Q) (es : List SEv) (np nt : Nat) :
+    (pendLoop P cls lim mnt s es np nt).sys.now ≤ s.now + pendBudget lim mnt np nt ∧
+    (pendLoop P cls lim mnt s es np nt).sys.wire = s.wire ∧
+    (∀ s' es', pendLoop P cls lim mnt s es np nt ≠ .done .blocked s' es') := by
+  fun_induction pendLoop P cls lim mnt s es np nt
+  case case2 s es np nt s1 es1 heq h ih =>
+    obtain ⟨h1, h2, h3⟩ := rd_now heq
+    have hb1 := pendBudget_timeout lim mnt np nt h
+    obtain ⟨i1, i2, i3⟩ := ih
+    exact ⟨by omega, by rw [i2, h2], i3⟩
+  case case7 s es np nt d s1 es1 hd heq hcls h ih =>
+    obtain ⟨h1, h2, h3⟩ := rd_now heq
+    have hb1 := pendBudget_pending lim mnt np nt h
+    obtain ⟨i1, i2, i3⟩ := ih
+    exact ⟨by omega, by rw [i2, h2], i3⟩
+  all_goals
+    obtain ⟨h1, h2, h3⟩ := rd_now ‹opRead P _ _ (some lim.waiting) = _›
+    have hb := pendBudget_base lim mnt
+    first
+    | exact absurd rfl h3
+    | (refine ⟨Nat.le_trans h1 (Nat.add_le_add_left (hb _ _) _), h2, ?_⟩
+       intro s' es' hc; cases hc)
+
 end Gallia.LossSys
